@@ -222,8 +222,8 @@ def pair_equal(rec, rng, cid):
     ctx = settings_context(rng, spec)
     kind = ["tuple-list", "int-float", "bool-01", "dict-order",
             "segment-name", "num-samples-plateau-off",
-            "range-lower-plateau-on", "two-objects", "params-copy"][
-        int(rng.integers(9))]
+            "range-lower-plateau-on", "two-objects", "params-copy",
+            "params-route", "params-route"][int(rng.integers(11))]
     a, b = dict(ctx), dict(ctx)
     if kind == "tuple-list":
         b["range_x"] = tuple(ctx["range_x"])
@@ -266,6 +266,36 @@ def pair_equal(rec, rng, cid):
         p["contact_point"].value = 1.5e-7
         a["params_initial"] = p
         b["params_initial"] = copy.deepcopy(p)
+    elif kind == "params-route":
+        # equal value/min/max/vary/expr for every parameter, reached along
+        # different routes: attributes that cannot influence a fit (stderr,
+        # correl, init_value, brute_step, user_data) differ
+        route = ["assign-vs-set", "fit-result-vs-fresh", "brute-step",
+                 "user-data"][int(rng.integers(4))]
+        kind = "params-route/" + route
+        pa = gen.nanite_params(spec["model"])
+        pb = gen.nanite_params(spec["model"])
+        v = float(pa["E"].value * rng.uniform(.5, 2))
+        c = float(rng.uniform(-2e-7, 2e-7))
+        if route == "assign-vs-set":
+            pa["E"].value = v
+            pa["contact_point"].value = c
+            pb["E"].set(value=v)
+            pb["contact_point"].set(value=c)
+        elif route == "fit-result-vs-fresh":
+            i3 = fitlab.build_curve(spec)[0]
+            i3.fit_model(model_key=spec["model"])
+            pa = copy.deepcopy(i3.fit_properties["params_fitted"])
+            for k in pa:
+                pb[k].set(value=pa[k].value, min=pa[k].min, max=pa[k].max,
+                          vary=pa[k].vary)
+        elif route == "brute-step":
+            pa["E"].value = pb["E"].value = v
+            pa["E"].brute_step = 10.0
+        else:
+            pa["E"].value = pb["E"].value = v
+            pa["E"].user_data = {"calibrated": True}
+        a["params_initial"], b["params_initial"] = pa, pb
     case = {"id": cid, "class": "must-be-equal", "kind": kind, "curve": spec,
             "a": a, "b": b}
     try:
